@@ -12,6 +12,7 @@ import X86Model.Driver.Port
 import X86Model.Driver.Interrupts
 import X86Model.Driver.Regs
 import X86Model.Driver.Tlb
+import X86Model.Driver.Recursive
 
 open X86 X86.Driver
 
@@ -19,7 +20,7 @@ open X86 X86.Driver
 structure DState where
   mapper : MState := {}
 
-def statelessHandlers : List Handler := [handleC03, handleC04, handleC05, handleC06, handleC07, handleC19, handleC08, handleC15, handleC14, handleC18, handleC17, handleC16, handleC11]
+def statelessHandlers : List Handler := [handleC03, handleC04, handleC05, handleC06, handleC07, handleC19, handleC08, handleC15, handleC14, handleC18, handleC17, handleC16, handleC11, handleC20]
 
 def dispatch : SHandler DState := fun cfg op a impl st =>
   match statelessHandlers.firstM (fun h => h cfg op a impl) with
